@@ -29,12 +29,20 @@ def main():
         slot, its = a
         out = {}
         for (kind, mid, patch, checks) in its:
+            # results are kept per item so that an interrupted matrix run resumes (remove the directory for a fresh run)
+            keep = '/tmp/matrix_out/%s.json' % mid
+            if os.path.exists(keep):
+                out[mid] = json.load(open(keep))
+                continue
             r = sh(['/verif/tools/mutrun.py', '--slot', 'm%d' % slot, '--patch', patch, '--checks', checks])
             try:
                 out[mid] = json.loads(r.stdout.strip().splitlines()[-1])
             except Exception:
                 out[mid] = {'error': r.stdout[-1500:]}
             out[mid]['kind'] = kind
+            if 'error' not in out[mid]:
+                os.makedirs('/tmp/matrix_out', exist_ok=True)
+                json.dump(out[mid], open(keep, 'w'))
             c = out[mid].get('checks', {})
             print(mid, {k: (v['exit'], v['violations']) for k, v in c.items()}, flush=True)
         return out
